@@ -45,7 +45,7 @@ PROPS = {
                 probes_required=["round-ok", "round-failed", "overlapping-refresh", "final-converge", "svc-change-before-read"],
                 assumptions=["freshness is judged by version number over the stamp window of the refresh epoch (from the first overlapping call's invoke to the return)", "a hung poll request ends after 2 min like a transport timeout"]),
     "C12": dict(level="exploration", stages=[
-                    dict(kind="sim", name="baton", engine="storeworld-live", quick=20, thorough=600),
+                    dict(kind="sim", name="baton", engine="storeworld-live,storeworld-many,storeworld-corrupt", quick=20, thorough=600),
                     dict(kind="sim", name="race", engine="storeworld-race", race=True, instrumented=False, workers=8, quick=12, thorough=240,
                          env={"VERIF_GOMAXPROCS": "4", "GORACE": "halt_on_error=1 exitcode=66", "VERIF_PRINT_START": "1"})],
                 rule=live_rule, probes_required=["read-judged"],
@@ -91,6 +91,30 @@ def race_in_repo(ck, report):
     return False
 
 
+def panic_in_repo(ck, text):
+    """A process killed by a panic that was raised in repository code, on a
+    goroutine the harness cannot recover from (e.g. singleflight re-panics in a
+    goroutine of its own): the first frame outside the Go runtime and the
+    instrumented dependency copy decides. Returns the panic line or None."""
+    i = text.find("panic: ")
+    if i < 0:
+        return None
+    head = text[i:i + 300]
+    if "test timed out" in head or "out of memory" in head:
+        return None
+    repo = ck.REPO.rstrip("/") + "/"
+    for line in text[i:].splitlines()[1:]:
+        line = line.strip()
+        if not line.startswith("/"):
+            continue
+        if line.startswith("/opt/veriftools/go") or "/xsync/" in line or line.startswith(repo + "verifhook/"):
+            continue
+        if line.startswith(repo):
+            return head.splitlines()[0] + " at " + line.split(" ")[0].replace(repo, "")
+        return None
+    return None
+
+
 def run_property(ck, b, prop, cfg, tier, seed, replay, t0):
     outroot = os.path.join(b.dir, "out")
     os.makedirs(outroot, exist_ok=True)
@@ -134,6 +158,25 @@ def run_property(ck, b, prop, cfg, tier, seed, replay, t0):
                                    violation=dict(oracle=prop + ".race", step=0, message="data race reported by the race detector:\n" + report)),
                               open(dst, "w"), indent=1)
                     violations.append(dict(oracle=prop + ".race", message="data race reported by the race detector:\n" + report, replay=dst))
+                    crashes.remove(c)
+            for c in list(crashes):
+                # a panic raised in repository code that killed the process
+                where = panic_in_repo(ck, c.get("panic", ""))
+                if not where or not c.get("cur") or st.get("race"):
+                    continue
+                eng, sd = c["cur"].split()[0], int(c["cur"].split()[1])
+                keep = os.path.join(os.environ.get("VERIF_REPLAYS_DIR") or os.path.join(ck.VERIF, "replays"), prop)
+                os.makedirs(keep, exist_ok=True)
+                dst = os.path.join(keep, "%s-%s-crash-%d.json" % (prop, eng, sd))
+                msg = "the process was killed by a panic raised in repository code (not recoverable by the harness): %s\n%s" % (where, c["panic"][:3000])
+                json.dump(dict(property=prop, engine=eng, seed=sd, regenerate=True, crash=True,
+                               violation=dict(oracle=prop + ".crash", step=0, message=msg)), open(dst, "w"), indent=1)
+                conf = ck.replay_once(binary, prop, dst, outdir, extra_env=st.get("env"))
+                if panic_in_repo(ck, conf.get("panic", "")):
+                    violations.append(dict(oracle=prop + ".crash", message=msg, replay=dst))
+                    crashes.remove(c)
+                else:
+                    harness_trouble.append("a worker died of a panic in repository code for seed %s/%d but the replay did not (harness nondeterminism): %s" % (eng, sd, json.dumps(conf)[:600]))
                     crashes.remove(c)
             for c in crashes:
                 harness_trouble.append("worker %d of stage %d exited with %s:\n%s" % (c["worker"], i, c["rc"], c["log"]))
@@ -213,6 +256,12 @@ def do_replay(ck, b, prop, cfg, replay, outroot):
     binary = b.simtest(race=st.get("race", False), instrumented=st.get("instrumented", True))
     conf = ck.replay_once(binary, prop, os.path.abspath(replay), outroot, extra_env=st.get("env"))
     print(json.dumps(conf, indent=1)[:6000])
+    if rp.get("crash"):
+        if panic_in_repo(ck, conf.get("panic", "")):
+            print("VIOLATION property=%s replay=%s" % (prop, os.path.abspath(replay)))
+            return 1
+        print("replay did not reproduce the crash on this tree")
+        return 0
     if conf.get("same_oracle"):
         print("VIOLATION property=%s replay=%s" % (prop, os.path.abspath(replay)))
         return 1
